@@ -291,6 +291,26 @@ Definition rc_tau_literal (tg : target) (G : graph) : bool :=
   | None => false
   end.
 
+(** F9: a prefixed name, outside labels, whose local part contains its own
+    [prefix:] again -- [uri.replace(prefix + ":", namespace)] replaces every occurrence *)
+Definition ref_repeats_prefix (r : iriref) : bool :=
+  match r with Pref p l => contains (p ++ Str ":") l | _ => false end.
+
+Definition fterm_repeats_prefix (f : fterm) : bool :=
+  match f with FIri r => ref_repeats_prefix r | _ => false end.
+
+Definition rc_prefix_in_local (tg : target) : bool :=
+  ref_repeats_prefix (t_tau tg) ||
+  match t_classes tg with Some l => existsb ref_repeats_prefix l | None => false end ||
+  match t_items tg with
+  | Some its => existsb (fun it => match it_sel it with
+                                   | SelNode r => ref_repeats_prefix r
+                                   | SelFocusSubj a b | SelFocusObj a b => fterm_repeats_prefix a || fterm_repeats_prefix b
+                                   | SelSparql _ => false
+                                   end) its
+  | None => false
+  end.
+
 (** the classes / labels a specification names on [G] *)
 Definition dedup_str : list str -> list str -> list str :=
   fix dd (l seen : list str) : list str :=
